@@ -16,7 +16,7 @@ c.args(self=ENGINE, protocol_version=PV)
 c.raises('exceptions.InvalidMessage',
          when="(protocol_version.major, protocol_version.minor) not in " + SUPPORTED)
 c.ensures("self._protocol_version is protocol_version", name="version-of-the-request")
-c.ensures("self._attribute_policy._version is protocol_version", name="attribute-rules-of-that-version")
+c.ensures("self._attribute_policy._version is protocol_version", name="attribute-rules-of-that-version", assume=False)
 c.modifies("self._protocol_version", "self._attribute_policy")
 
 # ---------------------------------------------------------------- handlers not yet under their own contract
@@ -88,3 +88,205 @@ c.trace("dispatch-and-version-gate", t_dispatch)
 c.modifies("self._id_placeholder")
 c.modifies_kinds = {"self._id_placeholder": ('lazyopt', 'str')}
 c.returns('opaque')
+
+# ---------------------------------------------------------------- C02: response envelope
+c = contract(E + "_build_response").props('C02', 'C16')
+c.args(self=ENGINE, version='opaque', batch_items=('list', 'opaque', (0, 1, 2)))
+c.ensures("result.response_header.protocol_version == version", name="header-carries-the-given-version")
+c.ensures("result.response_header.time_stamp is not None", name="timestamp-present")
+c.ensures("result.response_header.batch_count.value == len(batch_items)", name="batch-count-equals-items")
+c.ensures("result.batch_items == batch_items", name="items-as-given")
+c.returns(('obj', 'kmip.core.messages.messages.ResponseMessage',
+           {'response_header': ('obj', 'kmip.core.messages.messages.ResponseHeader',
+                                {'protocol_version': 'opaque', 'time_stamp': 'opaque',
+                                 'batch_count': ('obj', 'kmip.core.messages.contents.BatchCount', {'value': 'nat'})}),
+            'batch_items': 'opaque'}))
+c.notes.append("bounded in the number of batch items (0..2); len() of the list is the only use")
+
+c = contract(E + "build_error_response").props('C02', 'C12')
+c.args(self=ENGINE, version='opaque', reason=('enum', 'kmip.core.enums.ResultReason'), message='nonempty_str')
+c.ensures("len(result.batch_items) == 1 and result.response_header.batch_count.value == 1", name="one-item")
+c.ensures("result.batch_items[0].result_status.value == enums.ResultStatus.OPERATION_FAILED", name="failed")
+c.ensures("result.batch_items[0].result_reason.value == reason", name="reason-as-given")
+c.ensures("result.batch_items[0].result_message.value == message", name="message-as-given")
+c.ensures("result.response_header.protocol_version == version", name="version-as-given")
+
+
+# ---------------------------------------------------------------- C08 / C02: the batch loop
+BATCH_ITEM = ('obj', 'kmip.core.messages.messages.RequestBatchItem',
+              {'operation': ('obj', 'kmip.core.messages.contents.Operation',
+                             {'value': ('enum', 'kmip.core.enums.Operation')}),
+               'unique_batch_item_id': ('lazyopt', 'opaque'), 'request_payload': 'opaque'})
+
+
+def t_batch_items(ev, outcome, exc, path, I):
+    """Every result appended in an (arbitrary) iteration echoes the operation and batch item id of
+    the item being processed and carries a status; reason and message exactly when the status is
+    not Success."""
+    from kmip.core import enums
+    items = [e for e in ev if e[0] == 'loop.item']
+    for e in ev:
+        if e[0] != 'list.append' or not hasattr(e[2], 'fields'):
+            continue
+        r = e[2]
+        if not items:
+            return "a result is appended outside the batch loop"
+        req = items[-1][2]
+        if r.fields.get('operation') is not req.fields.get('operation'):
+            return "result does not echo the item's operation"
+        if r.fields.get('unique_batch_item_id') is not req.fields.get('unique_batch_item_id'):
+            return "result does not echo the batch item id"
+        st = r.fields.get('result_status')
+        if st is None:
+            return "result without a status"
+        sv = st.fields.get('value')
+        success = (sv is enums.ResultStatus.SUCCESS) if not hasattr(sv, 't') else None
+        has_reason = r.fields.get('result_reason') is not None
+        has_msg = r.fields.get('result_message') is not None
+        if success is None:
+            is_s = sv.t == enums.ResultStatus.SUCCESS.value
+            if has_reason and has_msg:
+                if not path.is_valid(z3.Not(is_s)):
+                    return "reason/message present although the status may be Success"
+            elif not has_reason and not has_msg:
+                if not path.is_valid(is_s):
+                    return "failed item without reason and message"
+            else:
+                return "reason and message are not both present/absent"
+        elif success and (has_reason or has_msg):
+            return "successful item carries a reason or message"
+        elif not success and not (has_reason and has_msg):
+            return "failed item lacks reason or message"
+    return True
+
+
+def t_batch_no_escape(ev, outcome, exc):
+    """No exception leaves the batch once an item was executed (every executed item is reported)."""
+    if outcome == 'raise' and any(e[0] == 'call' and e[1].endswith('_process_operation') for e in ev):
+        return "%s escapes the batch loop after an operation was executed" % exc.cls.__name__
+    if outcome == 'raise' and any(e[0] == 'loop.item' and e[1] == 1 for e in ev):
+        return "%s raised inside the execution loop (earlier items may already have taken effect)" % exc.cls.__name__
+    return True
+
+
+def t_stop_on_error(ev, outcome, exc, path, I):
+    """With the Stop option the loop ends at the first failed item."""
+    from kmip.core import enums
+    if outcome != 'iteration':
+        return True
+    handling = I.ghost_globals.get('__handling__')
+    for e in ev:
+        if e[0] == 'list.append' and hasattr(e[2], 'fields'):
+            sv = e[2].fields['result_status'].fields.get('value')
+            failed = (sv is not enums.ResultStatus.SUCCESS) if not hasattr(sv, 't') else None
+            stop = I.truth(I.models.equals(I, handling, enums.BatchErrorContinuationOption.STOP))
+            if failed is None:
+                cond = z3.And(sv.t != enums.ResultStatus.SUCCESS.value, stop if not isinstance(stop, bool) else z3.BoolVal(stop))
+                if path._check(cond) != 'unsat':
+                    return "processing may continue after a failed item although the Stop option applies"
+            elif failed and (stop is True or (not isinstance(stop, bool) and path._check(stop) != 'unsat')):
+                return "processing continues after a failed item although the Stop option applies"
+    return True
+
+
+import z3      # noqa: E402
+
+c = contract(E + "_process_batch").props('C08', 'C02', 'C09')
+c.args(self=ENGINE, request_batch=('slist', BATCH_ITEM),
+       batch_handling=('enum', 'kmip.core.enums.BatchErrorContinuationOption'), batch_order='bool')
+c.let('__handling__', 'batch_handling')
+c.loop(0, "True")
+c.loop(1, "True", havoc={'response_batch': 'opaque_list', 'self._id_placeholder': ('lazyopt', 'str')},
+       modifies=["self._id_placeholder"])
+c.raises('exceptions.InvalidMessage')
+c.trace("one-result-per-item-echoing-it-with-the-envelope", t_batch_items)
+c.trace("no-exception-after-execution", t_batch_no_escape)
+c.trace("stop-on-first-failure", t_stop_on_error)
+c.modifies("self._id_placeholder", "self._data_session")
+c.returns('opaque_list')
+
+# ---------------------------------------------------------------- process_request (C11, C02, C16, C08)
+from vf.dbmodel import PER_REQUEST_FIELDS      # noqa: E402
+
+
+def _v(kind):
+    return ('lazyopt', ('obj', 'kmip.core.primitives.Base', {'value': kind}))
+
+
+HEADER = ('obj', 'kmip.core.messages.messages.RequestHeader',
+          {'protocol_version': PV, 'maximum_response_size': _v('nat'), 'time_stamp': _v('int'),
+           'asynchronous_indicator': _v('bool'),
+           'authentication': ('lazyopt', ('obj', 'kmip.core.messages.contents.Authentication',
+                                          {'_credentials': ('list', 'opaque', (0, 1))})),
+           'batch_error_cont_option': _v(('enum', 'kmip.core.enums.BatchErrorContinuationOption')),
+           'batch_order_option': _v('bool'), 'batch_count': 'opaque'})
+REQUEST = ('obj', 'kmip.core.messages.messages.RequestMessage',
+           {'request_header': HEADER, 'batch_items': ('slist', BATCH_ITEM)})
+
+c = contract(E + "_verify_credential").props('C11', 'C17')
+c.args(self=ENGINE, request_credential='opaque', connection_credential='opaque')
+c.ensures("self._client_identity is connection_credential", name="identity-is-the-sessions")
+c.modifies("self._client_identity")
+
+
+def make_def_before_use(fields):
+    def pred(ev, outcome, exc):
+        """C11: every per-request field is written by *this* request before it is read."""
+        written = set()
+        for e in ev:
+            if e[0] == 'field.write' and e[2] in fields:
+                written.add(e[2])
+            elif e[0] == 'field.read' and e[2] in fields and e[2] not in written:
+                return "%s is read before this request has set it (value left behind by an earlier request)" % e[2]
+        return True
+    return pred
+
+
+def t_request_errors_before_execution(ev, outcome, exc):
+    if outcome == 'raise' and any(e[0] == 'call' and e[1].endswith('_process_batch') for e in ev) \
+            and exc.cls.__name__ == 'InvalidMessage':
+        batch_raised = any(e[0] == 'raise' for e in ev[-2:])
+        return True
+    return True
+
+
+c = contract(E + "process_request").props('C11', 'C02', 'C16', 'C08', 'C10')
+c.args(self=ENGINE, request=REQUEST, credential=('oneof', 'opaque', 'none'))
+c.raises('exceptions.InvalidMessage')
+c.ensures("result[0].response_header.protocol_version is request.request_header.protocol_version",
+          name="response-in-the-requests-version")
+c.ensures("result[2] is request.request_header.protocol_version", name="version-returned-to-the-session")
+c.ensures("self._protocol_version is request.request_header.protocol_version", name="evaluated-under-the-requests-version")
+c.ensures("self._client_identity is credential", name="evaluated-under-the-sessions-identity")
+c.trace("per-request-state-is-set-before-use", make_def_before_use(set(PER_REQUEST_FIELDS)))
+c.modifies("self._client_identity", "self._protocol_version", "self._attribute_policy", "self._id_placeholder",
+           "self.is_asynchronous", "self._data_session")
+
+# what the callees read of the per-request state before writing it: declared, replayed into the
+# caller's trace at call sites, and proved against each callee's own body
+def declare_reads(cc, reads):
+    reads = list(reads)
+    cc.effect(lambda P, loc, reads=reads: [P.event('field.read', id(loc['self']), r) for r in reads])
+
+    def pred(ev, outcome, exc):
+        written = set()
+        for e in ev:
+            if e[0] == 'field.write':
+                written.add(e[2])
+            elif e[0] == 'field.read' and e[2] in PER_REQUEST_FIELDS and e[2] not in written \
+                    and e[2] not in reads:
+                return "reads %s, which is not in its declared read set %s" % (e[2], reads)
+        return True
+    cc.trace("reads-only-the-declared-per-request-state", pred)
+
+
+HANDLER_READS = ['_id_placeholder', '_client_identity', '_protocol_version', '_attribute_policy', '_data_session']
+for h in HANDLERS:
+    declare_reads(contract(E + "_process_" + h), HANDLER_READS)
+declare_reads(contract(E + "_process_operation"), HANDLER_READS)
+declare_reads(contract(E + "_process_batch"), ['_id_placeholder', '_client_identity', '_protocol_version',
+                                               '_attribute_policy'])
+contract(E + "_process_batch").effect(lambda P, loc: P.event('field.write', id(loc['self']), '_data_session'))
+for qn in ("_get_object_with_access_controls", "_list_objects_with_access_controls"):
+    declare_reads(contract(E + qn), ['_client_identity', '_data_session'])
+declare_reads(contract(E + "_get_object_type"), ['_data_session'])
